@@ -568,6 +568,32 @@ func (t *trieRun) genCase(c *Ctx, r *RNG, id string) *TrieCase {
 			tc.IDs, tc.VKind = genValueIDs(r, len(keys), VDistinct), vkindNames[VDistinct]
 			tc.Queries = genQueries(r, tc.Keys, t.qbudget)
 		}
+		if r.Intn(16) == 4 {
+			// directed: a run of equal values that starts in the middle of one group of keys with a
+			// long common prefix and continues into keys that do NOT share that prefix: the dropped
+			// keys at the end of the node's range leave the common prefix of the kept ones
+			var keys []string
+			var ids []uint64
+			first := byte(0x20 + r.Intn(0x60))
+			val := r.U64()
+			for g := 0; g < 2+r.Intn(3); g++ {
+				pre := string([]byte{first + byte(g)*5}) + randBytes(r, 2+r.Intn(4))
+				n := 3 + r.Intn(6)
+				brk := 1 + r.Intn(n-1)
+				for j := 0; j < n; j++ {
+					if j == brk {
+						val = r.U64() // a new run starts inside the group and runs on into the next one
+					}
+					keys = append(keys, pre+fmt.Sprintf("%04d", j))
+					ids = append(ids, val)
+				}
+			}
+			tc.Keys, tc.Kind, tc.IDs, tc.VKind = keys, "run-crosses-prefix", ids, "runs"
+			if tc.Opt[0] == 0 && (t.optFilter == nil || t.optFilter([4]int8{1, tc.Opt[1], tc.Opt[2], tc.Opt[3]})) {
+				tc.Opt[0] = 1
+			}
+			tc.Queries = genQueries(r, tc.Keys, t.qbudget)
+		}
 		if t.onlyKeys {
 			tc.Queries = append([]string{}, tc.Keys...)
 		}
